@@ -2,6 +2,7 @@
 import json
 import os
 import threading
+import time
 
 from lib.verif import *
 from props import chan_common as cc
@@ -19,14 +20,21 @@ THEOREMS = [
     "C12_classification_partial_broadcast_reachable",
     "C12_classification_total_fixed_reachable",
     "C12_no_failback_with_output_reachable",
+    # event loop (channelAttendant) around the decision (Arb/Attendant*.v)
+    "C12_loop_grace_reference", "C12_loop_deadline", "C12_loop_no_spurious",
 ]
 MODULE = "LV.Arb.ActionsProps"
 TARGETS = ["theories/Arb/ActionsProps.vo", "theories/Arb/ActionsExec.vo",
-           "theories/Arb/ActionsExamples.vo", "theories/Arb/ShapeExamples.vo"]
-HARNESS = ["contractcourt/verif_actions_test.go"]
+           "theories/Arb/ActionsExamples.vo", "theories/Arb/ShapeExamples.vo",
+           "theories/Arb/AttendantExec.vo", "theories/Arb/AttendantExamples.vo"]
+HARNESS = ["contractcourt/verif_actions_test.go", "contractcourt/verif_attendant_test.go"]
 WARM = [{"pkg": "contractcourt", "files": HARNESS}] + cc.WARM
 IMPORTS = ("From Coq Require Import List NArith ZArith Bool.\nImport ListNotations.\n"
            "From LV Require Import Arb.ActionsModel Arb.ActionsExec.\n")
+
+IMPORTS_ATT = ("From Coq Require Import List NArith ZArith Bool.\nImport ListNotations.\n"
+               "From LV Require Import Arb.ActionsModel Arb.ActionsExec Arb.AttendantModel "
+               "Arb.AttendantExec.\n")
 
 KNOWN_SIG = "faildust-not-consumed-after-broadcast"
 
@@ -289,6 +297,141 @@ def _local_deadline(env, h, height):
 
 
 
+# ------------------------------------------------ event loop (channelAttendant)
+# Histories on the RUNNING arbitrator (harness/contractcourt/verif_attendant_test.go):
+# start/restart, contract signals, commitment updates from the link, clock ticks,
+# blockbeats, user requests.
+
+CKEY = {"l": "CLocal", "r": "CRemote", "p": "CPending"}
+
+
+def t_lev(op):
+    k = op["op"]
+    if k == "start":
+        return "AStart %s" % cN(op["h"])
+    if k == "signal":
+        return "ASignal"
+    if k == "upd":
+        return "AUpdate %s %s" % (CKEY[op["key"]], clist([t_htlc(h) for h in op["hs"] or []]))
+    if k == "tick":
+        return "ATick %s" % cZ(op["dt"])
+    if k == "block":
+        return "ABlock %s" % cN(op["h"])
+    if k == "user":
+        return "AUser"
+    raise ValueError(k)
+
+
+def t_lcase(c):
+    e = c["env"]
+    env = "(mk_env %s %s %s %s %s %s %s)" % (
+        cN(e["ind"]), cN(e["outd"]), clist([cN(x) for x in e["fwd"]]),
+        cZ(0), cZ(e["grace"]), clist([cN(x) for x in e["cache"]]),
+        clist(["(%s, %s)" % (cN(h), cbool(p)) for h, p in e["inv"]]))
+    ops = ["LOp (%s) %s %s %s" % (t_lev(op), t_obs(ob), cZ(ob["ref"]), cZ(ob["now"]))
+           for op, ob in zip(c["ops"], c["obs"])]
+    return "(mkLCase %s %s %s)" % (env, t_sets(c["active"]), clist(ops))
+
+
+def loop_walk(c):
+    """The specification's view of a history, independent of the model: yields per
+    operation (i, op, ob, state_before, sets, now, ref, last) where `ref` is the
+    time of the last (re)start of the arbitrator -- the ONLY reference of the
+    start-up grace period the property knows -- and last[kind] the time of the
+    last event of every other kind."""
+    sets = {"l": list(c["active"]["l"]), "r": list(c["active"]["r"]),
+            "p": list(c["active"]["p"]), "hasp": bool(c["active"]["hasp"])}
+    now, ref, state, last = 0, None, 0, {}
+    for i, (op, ob) in enumerate(zip(c["ops"], c["obs"])):
+        k = op["op"]
+        if k == "tick":
+            now += op["dt"]
+        elif k == "start":
+            ref = now
+        elif k == "upd":
+            sets = dict(sets)
+            sets[op["key"]] = list(op["hs"] or [])
+            if op["key"] == "p":
+                sets["hasp"] = True
+        yield i, op, ob, state, sets, now, ref, dict(last)
+        if k not in ("tick", "start"):
+            last[k] = now
+        state = ob["state"]
+
+
+def loop_predicate(c):
+    """Property text on the running arbitrator: returns [(theorem, signature, message)]."""
+    fails = []
+    broadcast = False
+    for i, op, ob, state, sets, now, ref, _last in loop_walk(c):
+        k = op["op"]
+        env = dict(c["env"])
+        env["uptime"] = now - (ref if ref is not None else now)
+        if ob.get("err"):
+            fails.append(("C12_loop_deadline", "arb-error loop", "op %d: %s" % (i, ob["err"])))
+        if ob["ref"] != ref:
+            fails.append(("C12_loop_grace_reference", "grace-reference-moved by=%s" % k,
+                          "op %d (%s): the arbitrator's grace reference (startTimestamp) is "
+                          "t0+%ds, the arbitrator was last started at t0+%ss"
+                          % (i, k, ob["ref"], ref)))
+        if k in ("block", "start") and state == 0:
+            h = op["h"]
+            must = [x for x in sets["l"] if _must_go(env, x, h)]
+            if must and ob["fc"] != 1:
+                fails.append(("C12_loop_deadline", "deadline-missed loop",
+                              "op %d: %s at height %d, %d s after the arbitrator's start (grace "
+                              "%d s), reaches the cut-off of htlc %s but no force close"
+                              % (i, k, h, env["uptime"], env["grace"], must[0])))
+            if ob["fc"] and not _may_go(env, {"active": sets}, h):
+                fails.append(("C12_loop_no_spurious", "spurious-force-close loop",
+                              "op %d: force close at %s %d, %d s after start (grace %d s), "
+                              "without any HTLC at its cut-off"
+                              % (i, k, h, env["uptime"], env["grace"])))
+        if k == "user" and state == 0 and ob["fc"] != 1:
+            fails.append(("C12_loop_deadline", "user-close-ignored loop", "op %d" % i))
+        if k in ("tick", "signal", "upd") and (ob["fc"] or ob["fail"] or ob["final"] or
+                                                ob["resolvers"] or ob["state"] != state):
+            fails.append(("C12_loop_no_spurious", "event-side-effect %s" % k,
+                          "op %d: a %s event changed state %d -> %d / fc=%d fail=%s"
+                          % (i, k, state, ob["state"], ob["fc"], ob["fail"])))
+        if ob["fc"] > 1 or (ob["fc"] and broadcast):
+            fails.append(("C12_loop_deadline", "double-force-close loop", "op %d" % i))
+        if ob["fc"]:
+            broadcast = True
+    return fails
+
+
+def loop_stats(lrows):
+    """Histograms of the event-loop stage; `discriminating` counts the decisions
+    whose required outcome (force close or not) would be different had the grace
+    reference been moved by the last event of that kind."""
+    ev, kinds, disc = {}, {}, {}
+    decisions = fcs = 0
+    for c in lrows:
+        kinds[c["kind"]] = kinds.get(c["kind"], 0) + 1
+        for i, op, ob, state, sets, now, ref, last in loop_walk(c):
+            k = op["op"]
+            if k == "start" and i > 0:
+                k = "restart"
+            ev[k] = ev.get(k, 0) + 1
+            fcs += ob["fc"]
+            if op["op"] in ("block", "start") and state == 0:
+                decisions += 1
+                env = dict(c["env"])
+                env["uptime"] = now - ref
+                want = any(_must_go(env, x, op["h"]) for x in sets["l"])
+                for lk, t in last.items():
+                    if t <= ref:
+                        continue
+                    env2 = dict(env)
+                    env2["uptime"] = now - t
+                    if any(_must_go(env2, x, op["h"]) for x in sets["l"]) != want:
+                        disc[lk] = disc.get(lk, 0) + 1
+    return {"histories": len(lrows), "history_kinds": kinds, "events": ev,
+            "decisions_in_default_state": decisions, "force_closes": fcs,
+            "discriminating_decisions_by_last_event": disc}
+
+
 # ------------------------------------------------ C12b: shape of the HTLC sets
 # The classification theorems are stated for HTLC sets with unique indexes in
 # which every offered HTLC of our commitment is also on the peer's current and
@@ -431,6 +574,11 @@ def shape_correspondence(ctx, rows):
 
 
 def run(ctx):
+    tm, t_last = {}, [time.time()]
+
+    def lap(name):
+        tm[name] = round(time.time() - t_last[0], 1)
+        t_last[0] = time.time()
     pr = ctx.proof_stage(MODULE, THEOREMS, TARGETS, extra_trusted=[
         "Shape hypotheses of the classification theorems (unique indexes; an offered HTLC on our "
         "commitment is also on the peer's current and pending commitments) are stated in the "
@@ -440,7 +588,9 @@ def run(ctx):
         "resolutions_complete hypothesis: lnwallet hands the arbitrator one Incoming/Outgoing"
         "HtlcResolution per HTLC output of the confirmed commitment (exercised by C05)",
         "contract resolvers' own progress after insertion is out of scope here (C13)"])
+    lap("proof_stage")
     env = {}
+    tests = "^(TestVerifActions|TestVerifAttendant)$"
     shape_script = None
     if ctx.replay:
         rp = json.load(open(ctx.replay))
@@ -449,7 +599,11 @@ def run(ctx):
         if isinstance(case, dict) and "ops" in case:
             p = os.path.join(BUILD, "replay_%s.json" % ctx.uid())
             json.dump({"cases": [case]}, open(p, "w"))
-            env["VERIF_REPLAY"] = p
+            if case.get("loop"):
+                env["VERIF_REPLAY_ATT"] = p
+                tests = "^TestVerifAttendant$"
+            else:
+                env["VERIF_REPLAY"] = p
         if isinstance(d.get("script"), dict):
             shape_script = os.path.join(BUILD, "replay_%s_shape.json" % ctx.uid())
             json.dump([d["script"]], open(shape_script, "w"))
@@ -465,13 +619,25 @@ def run(ctx):
             shp["exc"] = repr(ex)
     th = threading.Thread(target=_shape)
     th.start()
-    rc, trace, out = run_harness(ctx.uid(), "contractcourt", HARNESS, "^TestVerifActions$",
+    # one test binary, two tests (in parallel): the decision functions called directly
+    # (TestVerifActions) and the running arbitrator's event loop (TestVerifAttendant)
+    att_trace = os.path.join(BUILD, "trace_%s_att.jsonl" % ctx.uid())
+    try:
+        os.remove(att_trace)
+    except FileNotFoundError:
+        pass
+    env["VERIF_OUT_ATT"] = att_trace
+    rc, trace, out = run_harness(ctx.uid(), "contractcourt", HARNESS, tests,
                                  env=env, timeout=1500)
+    lap("go_harness")
     rows = read_jsonl(trace)
-    if rc != 0 or not rows:
+    lrows = read_jsonl(att_trace)
+    want_rows = "VERIF_REPLAY_ATT" not in env
+    want_lrows = "VERIF_REPLAY" not in env
+    if rc != 0 or (want_rows and not rows) or (want_lrows and not lrows):
         th.join()
-        ctx.violation("harness_failed", "TestVerifActions", {"log": out[-4000:]},
-                      signature="harness", failing_input=False)
+        ctx.violation("harness_failed", "TestVerifActions/TestVerifAttendant",
+                      {"log": out[-4000:]}, signature="harness", failing_input=False)
         return
 
     # (3) property predicate on the implementation's own trace
@@ -503,8 +669,36 @@ def run(ctx):
                        "disagreeing_ops": [{"op": c["ops"][i], "impl": c["obs"][i]}
                                            for i in opsidx[:4]]},
                       signature="actions mismatch", failing_input=bool(predicate(c)))
+    lap("direct_predicate_and_model")
+    # event loop: predicate on the running arbitrator's histories + correspondence
+    for c in lrows:
+        for thm, sig, msg in loop_predicate(c):
+            key = sig.split(" ")[0] + "|" + thm
+            sigs[key] = sigs.get(key, 0) + 1
+            if sigs[key] > 1:
+                continue
+            ctx.violation("impl_violates_predicate", thm, {"case": c, "fails": [msg]},
+                          signature=sig)
+    lbad = []
+    if lrows:
+        okl, lbad, logsl = coq_mismatches(ctx.uid("_att"), IMPORTS_ATT, [t_lcase(c) for c in lrows],
+                                          shard=max(20, len(lrows) // NCPU + 1),
+                                          mism="att_mismatches")
+        if not okl:
+            ctx.violation("correspondence_mismatch",
+                          "Arb.AttendantExec (model evaluation failed)", {"logs": logsl},
+                          signature="model-eval loop", failing_input=False)
+        for ci, opsidx in lbad[:3]:
+            c = lrows[ci]
+            ctx.violation("correspondence_mismatch", "Arb.AttendantExec.check_lcase",
+                          {"case": c, "op_indices": opsidx,
+                           "disagreeing_ops": [{"op": c["ops"][i], "impl": c["obs"][i]}
+                                               for i in opsidx[:4]]},
+                          signature="attendant mismatch", failing_input=bool(loop_predicate(c)))
+    lap("loop_predicate_and_model")
     # C12b: shape predicate on the real channel's party dumps + their tie to the model
     th.join()
+    lap("wait_shape_stage")
     if shp.get("exc") or shp.get("rc") != 0 or not shp.get("rows"):
         ctx.violation("harness_failed", "TestVerifChan (shape stage)",
                       {"exc": shp.get("exc"), "rc": shp.get("rc"), "log": (shp.get("log") or "")[-4000:]},
@@ -551,10 +745,13 @@ def run(ctx):
             nres += len(ob["resolvers"])
             nfinal += len(ob["final"])
             nfc += ob["fc"]
+    lnontriv = [c for c in lrows
+                if any(o["op"] == "block" for o in c["ops"]) and
+                (c["active"]["l"] or c["active"]["r"] or any(o["op"] == "upd" for o in c["ops"]))]
     ctx.cov.update({
-        "evaluations": len(rows),
+        "evaluations": len(rows) + len(lrows),
         "distinct_nontrivial": distinct_count(
-            [c for c in rows if c["ops"] and (c["active"]["l"] or c["active"]["r"])],
+            [c for c in rows if c["ops"] and (c["active"]["l"] or c["active"]["r"])] + lnontriv,
             lambda c: [c["env"], c["active"], c["ops"]]),
         "rule": "seeded scenarios on the real ChannelArbitrator: three HTLC sets (protocol-shaped "
                 "+ a malformed stream) x direction x dust per commitment x preimage (cache / "
@@ -562,13 +759,31 @@ def run(ctx):
                 "{blocks, user close} x close {local, remote, pending, breach, coop}; thorough "
                 "tier adds the exhaustive two-HTLC universe; non-trivial = has HTLCs and at "
                 "least one operation; distinct by (env, sets, ops)",
-        "traces_validated_against_impl": len(rows),
+        "traces_validated_against_impl": len(rows) + len(lrows),
+        "direct_call_cases": len(rows),
+        "stage_wall_s": tm,
+        "loop_stage": dict(loop_stats(lrows), **{
+            "rule": "histories on the RUNNING ChannelArbitrator (Start(): real channelAttendant "
+                    "goroutine, real bolt log, test clock): (re)start / contract signals (same "
+                    "and new scid) / commitment updates from the link / clock ticks / blockbeats "
+                    "/ user requests.  Enumerated: one HTLC {own, forwarded, received+preimage, "
+                    "received} x {in the start-up sets, delivered by updates} x disturbance "
+                    "{none, signal, signal new scid, sets re-sent, other HTLC added, HTLC removed, restart} "
+                    "early and inside the last grace period before the critical block x up-time "
+                    "{grace, grace+1} x height {cut-off-1, cut-off} (quick: full for own payments, "
+                    "single disturbance for the others); plus seeded histories over the HTLC "
+                    "universe of the direct cases with ticks at grace-1/grace/grace+1.  Per event: "
+                    "the six observables, the clock and the grace reference (startTimestamp); "
+                    "decision at every block/start compared with the property text under the time "
+                    "since the LAST START and replayed on Arb.AttendantModel",
+            "correspondence_mismatches": len(lbad),
+        }),
         "case_kinds": kinds, "op_kinds": opk, "states_after_op": states,
         "htlcs_per_case": nh, "failbacks": nfail, "resolvers": nres,
         "incoming_dust_finals": nfinal, "force_closes": nfc,
         "predicate_failures_by_signature": sigs,
-        "samples": [rows[0]["ops"][:2]],
-        "correspondence_mismatches": len(bad),
+        "samples": [rows[0]["ops"][:2]] if rows else [lrows[0]["ops"][:4]],
+        "correspondence_mismatches": len(bad) + len(lbad),
         "shape_stage": {
             "rule": "seeded asynchronous schedules (reconnects and reloads from the channel DB "
                     "included) on two real LightningChannels; `shape` (wf, local_sub_conf for "
@@ -585,8 +800,14 @@ def run(ctx):
         },
     })
     ctx.assumptions += [
-        "the arbitrator goroutine is not started: the harness calls handleBlockbeat / "
-        "advanceState(userTrigger) / handle*CloseEvent directly, one event at a time",
+        "direct-call cases: the arbitrator goroutine is not started, the harness calls "
+        "handleBlockbeat / advanceState(userTrigger) / handle*CloseEvent directly, one event at a "
+        "time; the event-loop histories run the real goroutine (Start()) but deliver no close "
+        "event (close events are exercised by the direct-call cases and by C13)",
+        "event-loop histories: every (re)start is followed at the same clock instant by the "
+        "link's first UpdateContractSignals (what link.Start does; it is the synchronisation "
+        "point); a restart hands the new arbitrator the link's latest HTLC sets; IsForwardedHTLC "
+        "answers for the short channel id announced by the last contract signals",
         "per HTLC index the peer's current and pending commitment agree on dust-ness in the "
         "generated arbitrator cases (otherwise checkRemoteDanglingActions depends on Go map "
         "iteration order); such states ARE reachable (C12_shape_dust_disagreement_reachable), "
